@@ -98,14 +98,17 @@ pub fn run(seed: u64, n: usize, outdir: &str, _corpus: Option<&str>) -> std::io:
             let bg = crate::c07::gen_bigram_sized(&mut rng, false, false, gd.nright - 1, gd.nleft - 1);
             gd.bigram = Some((bg.right_file(), bg.left_file(), bg.cost_file(), kind == 3));
         }
-        // user rows for the history (valid ids)
+        // user rows for the history (1 lexicon in 8 has a row whose left or right id lies outside the connector, possibly in
+        // the gap between its two dimensions: it must be rejected -- before and after any mapping -- with an error)
         let mut mk_user = |rng: &mut Rng, gd: &GenDict| -> Vec<Row> {
             let k = 1 + rng.below(3) as usize;
+            let bad = if rng.chance(1, 8) { Some(rng.below(k as u64) as usize) } else { None };
+            let bad_left = rng.chance(1, 2);
             (0..k)
                 .map(|i| Row {
                     surface: if !gd.sys.is_empty() && rng.chance(1, 2) { rng.pick(&gd.sys).surface.clone() } else { gen_surface(rng, &ALPHABET[..6], 3) },
-                    lid: rng.below(gd.nleft as u64) as u16,
-                    rid: rng.below(gd.nright as u64) as u16,
+                    lid: if bad == Some(i) && bad_left { (gd.nleft + rng.below(1 + gd.nright.saturating_sub(gd.nleft) as u64) as usize) as u16 } else { rng.below(gd.nleft as u64) as u16 },
+                    rid: if bad == Some(i) && !bad_left { (gd.nright + rng.below(1 + gd.nleft.saturating_sub(gd.nright) as u64) as usize) as u16 } else { rng.below(gd.nright as u64) as u16 },
                     cost: rng.range(-50, 50) as i16,
                     feature: format!("W{},u", i),
                 })
